@@ -816,6 +816,121 @@ pub fn renewstory(args: &[String]) -> i32 {
     0
 }
 
+/// C09/C02 story "flush while a background batch is in the worker's hand": a key is written without flush; the
+/// periodic coordinator wakes the worker, which drains the shard and allocates (held there for a moment, as an
+/// involuntary preemption would); the record write of that batch fails once (determinate failure, the batch is
+/// scrubbed and queued again); meanwhile the application calls flush().  Whatever flush() answers, it is the truth:
+/// if it returned Ok, a copy of the device file taken at that instant (a crash right after the acknowledgement)
+/// recovers to a store that has the key; if it returned an error, the next flush on the healthy device succeeds and
+/// a clean reopen has the key.  One sequential history judged by TraceStore.tla.
+pub fn ackstory(args: &[String]) -> i32 {
+    use std::sync::atomic::{AtomicBool, Ordering};
+    let o = Opts::parse(args);
+    let dir = o.get("dir").unwrap_or("/dev/shm").to_string();
+    std::fs::create_dir_all(&dir).ok();
+    crate::obs::set_cpus(o.num("cpus", 2));
+    crate::util::watchdog::start(o.num("watchdog", 60));
+    feoxdb::verif::force_sync(true);
+    let cfg = Cfg { pers: true, ttl: false, cache: o.num("cache", 0u32) == 1, fmt: 3, lim: -1, blocks: 64 };
+    let cfgj = |c: &Cfg| json!({"pers": c.pers, "ttl": c.ttl, "cache": c.cache, "fmt": c.fmt, "lim": c.lim});
+    let now = 1_000 * E9;
+    feoxdb::verif::set_now(now);
+    let path = format!("{dir}/ack_{}.feox", std::process::id());
+    let copy = format!("{dir}/ack_{}_copy.feox", std::process::id());
+    let _ = std::fs::remove_file(&path);
+    let keys: Vec<Vec<u8>> = vec![b"a-base".to_vec(), b"b-late".to_vec()];
+    let store = build_store(&cfg, &path).expect("build store");
+    let mut vals = ValTable::new();
+    let mut evs: Vec<Value> = Vec::new();
+    evs.push(json!({"e": "reset", "cfg": cfgj(&cfg), "now": limbs(now), "overhead": FeoxStore::verif_record_overhead(),
+        "klen": keys.iter().map(|k| k.len()).collect::<Vec<_>>(), "post": post_state(&store, &keys)}));
+    let step = |store: &FeoxStore, vals: &mut ValTable, evs: &mut Vec<Value>, op: &str, k: usize, val: &[u8], faulted: bool| -> bool {
+        let mut ev = call_event(op, k);
+        let ok;
+        match op {
+            "insert" => {
+                let r = store.insert(&keys[k - 1], val);
+                ev["v"] = vals.val(val);
+                ok = r.is_ok();
+                ev["res"] = match &r { Ok(b) => res("bool", *b as i64, noval(), 0), Err(e) => res_err(e) };
+            }
+            "get" => {
+                let r = store.get(&keys[k - 1]);
+                ok = r.is_ok();
+                ev["res"] = match &r { Ok(v) => res("val", 0, vals.val(v), 0), Err(e) => res_err(e) };
+            }
+            _ => {
+                let r = store.flush();
+                ok = r.is_ok();
+                ev["res"] = match &r { Ok(()) => res("unit", 0, noval(), 0), Err(e) => res_err(e) };
+                ev["faulted"] = json!(faulted);
+            }
+        }
+        ev["now"] = json!(limbs(now));
+        ev["post"] = post_state(store, &keys);
+        evs.push(ev);
+        ok
+    };
+    step(&store, &mut vals, &mut evs, "insert", 1, b"base-value", false);
+    step(&store, &mut vals, &mut evs, "flush", 1, b"", false);
+    static IN_WINDOW: AtomicBool = AtomicBool::new(false);
+    static ARMED: AtomicBool = AtomicBool::new(false);
+    static FAILS: std::sync::atomic::AtomicUsize = std::sync::atomic::AtomicUsize::new(0);
+    let mine = keys[1].clone();
+    feoxdb::verif::install(Box::new(move |_seq, ev| {
+        if ev.kind == "alloc" && ev.key == mine.as_slice() && !IN_WINDOW.load(Ordering::SeqCst) {
+            IN_WINDOW.store(true, Ordering::SeqCst);
+            std::thread::sleep(std::time::Duration::from_millis(120));
+        }
+    }));
+    feoxdb::verif::set_fault_fn(Some(Box::new(|_idx, kind, sector, _len| {
+        // the first record write after the window opened fails (before anything is written)
+        // (three consecutive failures: the batch's own retries are used up, it is scrubbed and queued again)
+        if kind == "write" && sector >= 16 && IN_WINDOW.load(Ordering::SeqCst) && ARMED.load(Ordering::SeqCst)
+            && FAILS.fetch_add(1, Ordering::SeqCst) < 3 { 1 } else { 0 }
+    })));
+    ARMED.store(true, Ordering::SeqCst);
+    step(&store, &mut vals, &mut evs, "insert", 2, &vec![b'L'; 700], false);
+    // no flush: the periodic coordinator wakes the worker within its interval
+    let t0 = std::time::Instant::now();
+    while !IN_WINDOW.load(Ordering::SeqCst) && t0.elapsed().as_millis() < 3000 {
+        std::thread::sleep(std::time::Duration::from_micros(200));
+    }
+    let in_window = IN_WINDOW.load(Ordering::SeqCst);
+    let ok = step(&store, &mut vals, &mut evs, "flush", 1, b"", true);
+    if ok {
+        // a crash right after the acknowledgement: what the file holds now
+        std::fs::copy(&path, &copy).expect("copy device file");
+    }
+    ARMED.store(false, Ordering::SeqCst);
+    feoxdb::verif::set_fault_fn(None);
+    feoxdb::verif::uninstall();
+    let reopened = if ok {
+        std::mem::forget(store);
+        build_store(&cfg, &copy)
+    } else {
+        step(&store, &mut vals, &mut evs, "flush", 1, b"", false);
+        drop(store);
+        build_store(&cfg, &path)
+    };
+    match reopened {
+        Ok(s) => {
+            evs.push(json!({"e": "reopen", "cfg": cfgj(&cfg), "now": limbs(now), "post": post_state(&s, &keys)}));
+            for k in 1..=keys.len() { step(&s, &mut vals, &mut evs, "get", k, b"", false); }
+            std::mem::forget(s);
+        }
+        Err(e) => evs.push(json!({"e": "reopen_fail", "err": crate::util::err_name(&e)})),
+    }
+    let mut out = std::io::BufWriter::new(std::fs::File::create(o.req("out")).expect("create out"));
+    for e in &evs { writeln!(out, "{}", e).unwrap(); }
+    out.flush().unwrap();
+    let _ = std::fs::remove_file(&path);
+    let _ = std::fs::remove_file(&copy);
+    println!("{}", json!({"events": evs.len(), "in_window": in_window, "flush_ok": ok}));
+    if !in_window { return 3; }
+    0
+}
+
 thread_local!(static STORY_VICTIM_ALLOCATED: std::cell::Cell<bool> = const { std::cell::Cell::new(false) });
 
 /// C09/C02 story "failed batch next to an acknowledged one": a retired two-block extent [s, s+1] leaves
